@@ -4126,6 +4126,7 @@ def _parse_simple_lines(
                 and isinstance(expr_node.func, ast.Name)
                 and expr_node.func.id == "print"
             ):
+                _verif_note_ignored(scope, depth, line, "print")
                 i += 1
                 continue
             try:
@@ -4190,9 +4191,22 @@ def _parse_simple_lines(
             stmt_nodes = []
         if stmt_nodes and not _is_host_only_statement(stmt_nodes[0]):
             raise ValueError(f"unsupported statement: {line}")
+        _verif_note_ignored(scope, depth, line, "host-only" if stmt_nodes else "fragment")
         i += 1
 
     return body
+
+
+_VERIF_IGNORED: List[Tuple[str, int, str, str]] = []
+
+
+def _verif_note_ignored(scope: str, depth: int, line: str, reason: str) -> None:
+    """Verification hook (REDUINO_VERIF=1 only): record a line that is skipped without output."""
+
+    import os as _os
+
+    if _os.environ.get("REDUINO_VERIF") == "1":
+        _VERIF_IGNORED.append((scope, depth, line, reason))
 
 
 def _is_host_only_statement(node: ast.stmt) -> bool:
